@@ -41,6 +41,7 @@ enum Op {
     Default,
     Reparse(u8), // 0 bytes, 1 hex, 2 JSON, 3 CBOR
     Parse(Vec<u8>, bool), // continue with from_bytes / from_hex of the given bytes
+    Ann(usize, Option<u64>, Option<Script>), // set_satoshis / set_locking_script on input k (through get_input + set_input)
 }
 
 const KEY: [u8; 32] = [
@@ -119,6 +120,11 @@ fn parse_op(s: &str) -> Option<Op> {
         ("fh", 1) => Op::Reparse(1),
         ("fj", 1) => Op::Reparse(2),
         ("fc", 1) => Op::Reparse(3),
+        ("an", 4) => Op::Ann(
+            num::<u64>(f[1])? as usize,
+            if f[2] == "-" { None } else { Some(num(f[2])?) },
+            if f[3] == "-" { None } else { Some(Script::from_bytes(&expand(f[3])?).ok()?) },
+        ),
         ("pb", 2) => Op::Parse(expand(f[1])?, false),
         ("ph", 2) => Op::Parse(expand(f[1])?, true),
         ("sh", 5) => {
@@ -188,6 +194,17 @@ pub fn run(op: &str, args: &[String]) -> Option<String> {
             }
             Op::New(v, lt) => tx = Transaction::new(v, lt),
             Op::Default => tx = Transaction::default(),
+            Op::Ann(k, sat, lock) => {
+                if let Some(mut i) = tx.get_input(k) {
+                    if let Some(v) = sat {
+                        i.set_satoshis(v);
+                    }
+                    if let Some(l) = lock {
+                        i.set_locking_script(&l);
+                    }
+                    tx.set_input(k, &i);
+                }
+            }
             Op::Parse(b, as_hex) => {
                 let r = if as_hex { Transaction::from_hex(&hex::encode(&b)) } else { Transaction::from_bytes(&b) };
                 match r {
